@@ -40,7 +40,7 @@ def run(tier):
 
     ck = Check("C09", tier)
     ck.assumptions += ASSUMPTIONS
-    br = common.build("C09")
+    br = common.build("C09", models=("lang", "parser"))
     ck.proofs(br)
     if not br.ok:
         # tables changed or a proof broke: search the implementation for a failing input below
@@ -197,6 +197,13 @@ def run(tier):
             if sig_tokens(st) != s0 or strip_ignored_characters(st) != st:
                 ck.violation(f"strip:{s!r}", f"strip not token-preserving/idempotent on {s!r}",
                              {"relation": "strip laws", "source": s, "stripped": st})
+    if m is not None:
+        # parser model (layout independence, token limit theorems) vs the implementation: token-alphabet
+        # sequences and generated documents incl. max_tokens n-1/n/n+1 and token_count
+        from . import cparser
+        rule0 = ck.rule
+        cparser.core(ck, tier, ("B", "D"))
+        ck.rule = rule0 + " (D) parser model correspondence: see coverage.parser_rule"
     return ck.finish()
 
 
